@@ -103,6 +103,48 @@ WellFormed(t, m) ==
       \cup {"IE " \o ToString(IeId(ies[i])) \o " has criticality " \o ToString(IeCrit(ies[i])) :
                 i \in {j \in 1..Len(ies) : (\E r \in 1..Len(tab.ies) : tab.ies[r][1] = IeId(ies[j])) /\ IeCrit(ies[j]) # tab.ies[Row(IeId(ies[j]))][2]}}
 
+\* ---- building value trees from the type dictionary ---------------------------------------------------------------
+\* Build(ty, x): the value tree of type ty for the plain value x:
+\*   int: a number record [n |-> ..] or [big |-> ..]      enum: the index       bool: a BOOLEAN
+\*   octstr: octets      bitstr: [v |-> octets, nbits |-> n]
+\*   seq: a record field name -> plain value (optional fields may be missing)
+\*   seqof: a sequence of plain values
+\*   choice / open: [alt |-> alternative name, v |-> plain value]
+RECURSIVE Build(_, _)
+RECURSIVE BuildFields(_, _, _)
+BuildFields(fs, x, i) ==
+   IF i > Len(fs) THEN <<>>
+   ELSE LET f == fs[i] IN
+        << IF f.name \in DOMAIN x THEN [name |-> f.name, opt |-> f.opt, present |-> TRUE, v |-> Build(f.t, x[f.name])]
+           ELSE [name |-> f.name, opt |-> f.opt, present |-> FALSE] >> \o BuildFields(fs, x, i + 1)
+RECURSIVE AltIndex(_, _, _)
+AltIndex(alts, name, i) == IF i > Len(alts) THEN 0 ELSE IF alts[i].name = name THEN i ELSE AltIndex(alts, name, i + 1)
+Build(ty0, x) ==
+   LET ty == Resolve(NgapTypes, ty0) IN
+   CASE ty.k = "int" -> [k |-> "int", lb |-> ty.lb, ub |-> ty.ub, ext |-> ty.ext, v |-> x]
+     [] ty.k = "enum" -> [k |-> "enum", ub |-> ty.ub, ext |-> ty.ext, v |-> x]
+     [] ty.k = "bool" -> [k |-> "bool", v |-> x]
+     [] ty.k = "octstr" -> [k |-> "octstr", lb |-> ty.lb, ub |-> ty.ub, ext |-> ty.ext, v |-> x]
+     [] ty.k = "bitstr" -> [k |-> "bitstr", lb |-> ty.lb, ub |-> ty.ub, ext |-> ty.ext, v |-> x.v, nbits |-> x.nbits]
+     [] ty.k = "seq" -> [k |-> "seq", ext |-> ty.ext, fields |-> BuildFields(ty.fields, x, 1)]
+     [] ty.k = "seqof" -> [k |-> "seqof", lb |-> ty.lb, ub |-> ty.ub, ext |-> ty.ext, v |-> Tup([i \in 1..Len(x) |-> Build(ty.t, x[i])])]
+     [] ty.k = "choice" -> LET i == AltIndex(ty.alts, x.alt, 1) IN
+                           [k |-> "choice", ub |-> ty.ub, ext |-> ty.ext, idx |-> i - 1, v |-> Build(ty.alts[i].t, x.v)]
+     [] ty.k = "open" -> LET i == AltIndex(ty.alts, x.alt, 1) IN
+                         [k |-> "open", ref |-> ty.alts[i].ref, altref |-> ty.alts[i].ref, v |-> Build(ty.alts[i].t, x.v)]
+\* an NGAP PDU: cls 0|1|2, procedure code, criticality, message alternative name, plain IE list
+\*   ies: sequence of [id, crit, alt (alternative name of the IE value), v (plain value)]
+ClassField == <<"InitiatingMessage", "SuccessfulOutcome", "UnsuccessfulOutcome">>
+NgapPdu(cls, proc, crit, msgAlt, ies) ==
+   Build(NgapSchema.root,
+         [alt |-> ClassField[cls + 1],
+          v |-> [ProcedureCode |-> [Value |-> [n |-> proc]], Criticality |-> [Value |-> crit],
+                 Value |-> [alt |-> msgAlt,
+                            v |-> [ProtocolIEs |-> [List |-> Tup([i \in 1..Len(ies) |->
+                                     [Id |-> [Value |-> [n |-> ies[i].id]], Criticality |-> [Value |-> ies[i].crit],
+                                      Value |-> [alt |-> ies[i].alt, v |-> ies[i].v]]])]]]]])
+NgapEncode(tree) == PerEncode(tree)
+
 \* ---- generic search: the leaves of all components with a given field name, in document order ---------------------
 RECURSIVE Named(_, _)
 RECURSIVE NamedSeq(_, _, _)
